@@ -248,15 +248,16 @@ def assemble(template_path, unit, default_props, skip_fns=None):
             # call `self.<callee>(` / `s.<callee>(`. Generated from the source on every run (a syntactic frame condition).
             kv = _parse_kv(s[13:])
             src = get_source(kv['file'])
-            callee = kv['callee']
+            callee = kv.get('callee') or kv['name']
             allowed = set(kv['allowed'].split(','))
             callers = set()
+            call_pat = (kv['pattern'] if kv.get('pattern') else r'\b(?:self|s)\s*\.\s*%s\s*\(' % re.escape(callee))
             for itf in src.find_all(lambda c: c.kind == 'fn'):
                 par = itf.parent
                 if par is None or par.kind != 'impl' or par.name != kv['impl']:
                     continue
                 body = _code_only(src.text_of(itf))
-                if re.search(r'\b(?:self|s)\s*\.\s*%s\s*\(' % re.escape(callee), body) and itf.name != callee:
+                if re.search(call_pat, body) and itf.name != callee:
                     callers.add(itf.name)
             unexpected = sorted(callers - allowed)
             out.append('// generated from %s: callers of %s::%s = {%s}; allowed = {%s}' % (kv['file'], kv['impl'], callee, ', '.join(sorted(callers)), ', '.join(sorted(allowed))))
